@@ -37,6 +37,8 @@ for _p in ("C01", "C02"):
                           "the reference that LedgerTrace folds -- refines the literal per-sat BIP assignment (every outpoint's ranges "
                           "flatten to its sat sequence, lost ranges to the lost sats, in order), sats are partitioned over unspent outputs "
                           "and lost, values equal range totals, normalisation and sat lookup preserve meaning. ") + CLAIMS[_p]["text"]
+    CLAIMS[_p]["text"] += ("; the scenario families include chains with duplicate coinbase txids (byte-identical coinbases of fee-free blocks): the "
+                           "displaced sats are destroyed in the reference ledger and the partition and lookup clauses take them into account")
     CLAIMS[_p]["technique"] = ("TLC model checking of the range ledger against the per-sat BIP assignment (spec/SatLedger.tla) + "
                                "TLA+ trace validation with TLC (spec/LedgerTrace.tla) of traces recorded from the real indexer")
 CLAIMS["C08"]["level"] = "model_checking"
@@ -73,8 +75,10 @@ CLAIMS["C13"] = {"engine": "indexer-protocol", "level": "fault_enumeration",
                          "rollback) x occurrence x settings: a child process aborts there; the reopened index must be at the last durable "
                          "height (strict replay of the child's events against Indexer.tla), its content must equal a from-scratch index of "
                          "that prefix, and after continuing to the tip it must equal a from-scratch index of the chain (ProtoTrace.tla); "
-                         "TLC also checks Indexer.tla with Crash enabled at every pc",
-                 "note": _PNOTE + "; crashes are abort() at hook points, not power loss inside a redb commit",
+                         "in a second family the updating process is killed (SIGKILL, no hook) shortly after its k-th commit, several times in a row over a "
+                         "70-block backlog, and judged by ProtoTrace alone; TLC also checks Indexer.tla with Crash enabled at every pc",
+                 "note": _PNOTE + "; crashes are abort() at hook points and SIGKILL a few milliseconds after the k-th commit (process death, "
+                         "possibly inside a redb commit), not power loss",
                  "technique": "crash-point enumeration on the real indexer judged by TLA+ trace validation; TLC model checking of Indexer.tla with crashes"}
 CLAIMS["C14"] = {"engine": "indexer-protocol", "level": "model_checking",
                  "text": "TLC checks Indexer.tla for every (height, fork depth, savepoint phase) within small constants incl. liveness "
@@ -157,8 +161,8 @@ CLAIMS["C22"] = {"engine": "wallet-runes", "level": "model_checking",
                  "note": "trusted: TLC, the harness, mockcore as the node; amounts are small integers; the exhaustive model abstracts values, fees and scripts",
                  "technique": "TLC model checking of the wallet rune constructors composed with the rune rules (WalletModel) + TLA+ trace validation of the real commands against the real index (WalletTrace)"}
 CLAIMS["C23"] = {"engine": "wallet-runes", "level": "model_checking",
-                 "text": "in the exhaustive model the node may fund with ANY unlocked wallet outputs; the invariant is that no inscribed or runic output other than the command's subject is spent (violated when the lock step is removed). For every real node-funded command run by the driver (send bitcoin, mint, split, send and burn runes) TLC checks on the recorded trace that every inscribed or runic wallet output that is not the subject was in the node's locked set after the command, that the broadcast transaction spends none of them, and that it spends only wallet outputs; all non-cardinal outputs are made larger than any cardinal one so that the mock node's largest-first funding would pick an unlocked one",
-                 "note": "trusted: TLC, the harness, mockcore's lockunspent/fundrawtransaction; offer creation is exercised by the C24 driver, not here",
+                 "text": "in the exhaustive model the node may fund with ANY unlocked wallet outputs; the invariant is that no inscribed or runic output other than the command's subject is spent (violated when the lock step is removed). For every real node-funded command run by the driver (send bitcoin, mint, split, send and burn runes, offer create for a foreign inscription) TLC checks on the recorded trace that every inscribed or runic wallet output that is not the subject was in the node's locked set after the command, that the broadcast transaction spends none of them, and that it spends only wallet outputs; all non-cardinal outputs are made larger than any cardinal one so that the mock node's largest-first funding would pick an unlocked one",
+                 "note": "trusted: TLC, the harness, mockcore's lockunspent/fundrawtransaction; `wallet sweep` (also node-funded, not named by the property) is not driven",
                  "technique": "TLC model checking with a nondeterministic funding node (WalletModel) + TLA+ trace validation of the locked set and inputs of real commands (WalletTrace)"}
 
 ENGINES.append({"name": "offer", "path": "spec/Offer.tla", "serves_properties": ["C24"],
